@@ -72,7 +72,7 @@ def field_order(case):
 
 
 def model_payload(case):
-    eps = case['eps'] or 0.0
+    eps = 0.0 if case['eps'] is None else case['eps']      # int 0 stays exact, as in the call
     fields = []
     for nm in field_order(case):
         cs = case['cons'][nm]
@@ -83,7 +83,7 @@ def model_payload(case):
 
 
 def check_case(ctx, case, mo):
-    eps = case['eps'] or 0.0
+    eps = 0.0 if case['eps'] is None else case['eps']      # int 0 stays exact, as in the call
     try:
         r = run_impl(case)
     except Exception as e:
